@@ -16,7 +16,7 @@ RULE = ("enumerated lattice: bit widths 0..32 (0..64 for delta miniblocks) x cou
         "(function, width, count class, pattern, capacity class, itemsize) tuples.  quick = a third of the counts; thorough = full lattice")
 ASSUMPTIONS = ["the reference codecs in vf/ref/encodings.py implement the Parquet Encodings document (self-tested by round trip and on the repository's third-party files)"]
 EXHAUSTIVE = True
-CASE_TIMEOUT = 300
+CASE_TIMEOUT = 120
 HANG_IS_VIOLATION = True
 
 COUNTS_FULL = list(range(0, 18)) + [23, 24, 25, 31, 32, 33, 63, 64, 65, 127, 128, 129, 255, 256, 257, 1023, 1024, 1025]
